@@ -1,15 +1,15 @@
 -------------------------------- MODULE MotifImpl --------------------------------
 (* X03, L2: the counting loops of motif{3,4}{struct,funct}_bin as a machine.      *)
 (*                                                                               *)
-(*   for u in range(n - K + 1):                         action NextU              *)
-(*     V1 = neighbours of u (> u)                                                 *)
+(*   for cu in range(n - K + 1):                         action NextU              *)
+(*     V1 = neighbours of cu (> cu)                                                 *)
 (*     for v1 in where(V1):                             action NextV1             *)
-(*       V2 = neighbours of v1 (> u) not in V1, or neighbours of u (> v1)         *)
+(*       V2 = neighbours of v1 (> cu) not in V1, or neighbours of cu (> v1)         *)
 (*       for v2 in where(V2):                           action NextV2             *)
 (*         K = 3: body                                                            *)
 (*         K = 4: vz = max(v1, v2)                                                *)
-(*           V3 = ((neighbours of v2 (> u) not in V2, or neighbours of v1 (> v2)) *)
-(*                 not in V1), or neighbours of u (> vz)                          *)
+(*           V3 = ((neighbours of v2 (> cu) not in V2, or neighbours of v1 (> v2)) *)
+(*                 not in V1), or neighbours of cu (> vz)                          *)
 (*           for v3 in where(V3): body                  action NextV3             *)
 (*   body: a = the off-diagonal cells of A on (u, v1, v2[, v3]) in column-major   *)
 (*         order; structural: s = decimal hash of a, ix = (s == mn), id[ix];      *)
@@ -32,8 +32,8 @@ CONSTANTS N,          \* nodes
           AsCoded,    \* see above
           Inputs,     \* "dir" all digraphs | "und" all symmetric | "orient" supports x orientation schemes
           Lemmas      \* also check the L0 lemmas (permutation invariance etc.) in the initial state
-VARIABLES A, pc, u, L1, i1, L2, i2, L3, i3, tot, cnt, seen
-vars == <<A, pc, u, L1, i1, L2, i2, L3, i3, tot, cnt, seen>>
+VARIABLES adjm, pc, cu, L1, i1, L2, i2, L3, i3, tot, cnt, vis
+vars == <<adjm, pc, cu, L1, i1, L2, i2, L3, i3, tot, cnt, vis>>
 
 DPairs == {p \in (1..N) \X (1..N) : p[1] # p[2]}
 UPairs == {p \in (1..N) \X (1..N) : p[1] < p[2]}
@@ -50,7 +50,7 @@ InputSet ==
     [] Inputs = "orient" -> {MatOf(Orient(E, s)) : E \in SUBSET UPairs, s \in {"both", "fwd", "alt", "mix"}})
 
 NCls == NumClasses(K)
-As == SymSupport(N, A)
+As == SymSupport(N, adjm)
 Asc(S) == SetToSortSeq(S, <)
 
 (* ---- neighbour vectors (as sets of the positions that are TRUE) -------------- *)
@@ -83,81 +83,81 @@ StructIdBag(a) ==
   IN [id \in {IdOfCode(c) : c \in rows} |-> Cardinality({c \in rows : IdOfCode(c) = id})]
 IdBag(a) == IF Funct THEN FunctIdBag(a) ELSE StructIdBag(a)
 
-Init == /\ A \in InputSet
-        /\ pc = "u" /\ u = 1
+Init == /\ adjm \in InputSet
+        /\ pc = "cu" /\ cu = 1
         /\ L1 = <<>> /\ i1 = 0 /\ L2 = <<>> /\ i2 = 0 /\ L3 = <<>> /\ i3 = 0
         /\ tot = [id \in 1..NCls |-> 0]
         /\ cnt = [id \in 1..NCls |-> [v \in 1..N |-> 0]]
-        /\ seen = <<>>
+        /\ vis = <<>>
 
 Body(tup) ==
-  LET a == TupCode(K, A, tup)
+  LET a == TupCode(K, adjm, tup)
       bag == IdBag(a)
       nodes == {tup[k] : k \in 1..K}
   IN /\ tot' = [id \in 1..NCls |-> tot[id] + BagGet(bag, id)]
      /\ cnt' = [id \in 1..NCls |-> [v \in 1..N |-> cnt[id][v] + (IF v \in nodes THEN BagGet(bag, id) ELSE 0)]]
-     /\ seen' = Append(seen, tup)
+     /\ vis' = Append(vis, tup)
 
-NextU == /\ pc = "u"
-         /\ IF u > N - K + 1 THEN pc' = "done" /\ UNCHANGED <<L1, i1>>
-            ELSE pc' = "v1" /\ L1' = Asc(V1Of(u)) /\ i1' = 1
-         /\ UNCHANGED <<A, u, L2, i2, L3, i3, tot, cnt, seen>>
+NextU == /\ pc = "cu"
+         /\ IF cu > N - K + 1 THEN pc' = "done" /\ UNCHANGED <<L1, i1>>
+            ELSE pc' = "v1" /\ L1' = Asc(V1Of(cu)) /\ i1' = 1
+         /\ UNCHANGED <<adjm, cu, L2, i2, L3, i3, tot, cnt, vis>>
 NextV1 == /\ pc = "v1"
-          /\ IF i1 > Len(L1) THEN pc' = "u" /\ u' = u + 1 /\ UNCHANGED <<L2, i2>>
-             ELSE pc' = "v2" /\ L2' = Asc(V2Of(u, L1[i1])) /\ i2' = 1 /\ UNCHANGED u
-          /\ UNCHANGED <<A, L1, i1, L3, i3, tot, cnt, seen>>
+          /\ IF i1 > Len(L1) THEN pc' = "cu" /\ cu' = cu + 1 /\ UNCHANGED <<L2, i2>>
+             ELSE pc' = "v2" /\ L2' = Asc(V2Of(cu, L1[i1])) /\ i2' = 1 /\ UNCHANGED cu
+          /\ UNCHANGED <<adjm, L1, i1, L3, i3, tot, cnt, vis>>
 NextV2 == /\ pc = "v2"
           /\ IF i2 > Len(L2)
-             THEN pc' = "v1" /\ i1' = i1 + 1 /\ UNCHANGED <<i2, L3, i3, tot, cnt, seen>>
+             THEN pc' = "v1" /\ i1' = i1 + 1 /\ UNCHANGED <<i2, L3, i3, tot, cnt, vis>>
              ELSE IF K = 3
-                  THEN Body(<<u, L1[i1], L2[i2]>>) /\ i2' = i2 + 1 /\ UNCHANGED <<pc, i1, L3, i3>>
-                  ELSE pc' = "v3" /\ L3' = Asc(V3Of(u, L1[i1], L2[i2])) /\ i3' = 1
-                       /\ UNCHANGED <<i1, i2, tot, cnt, seen>>
-          /\ UNCHANGED <<A, u, L1, L2>>
+                  THEN Body(<<cu, L1[i1], L2[i2]>>) /\ i2' = i2 + 1 /\ UNCHANGED <<pc, i1, L3, i3>>
+                  ELSE pc' = "v3" /\ L3' = Asc(V3Of(cu, L1[i1], L2[i2])) /\ i3' = 1
+                       /\ UNCHANGED <<i1, i2, tot, cnt, vis>>
+          /\ UNCHANGED <<adjm, cu, L1, L2>>
 NextV3 == /\ pc = "v3"
           /\ IF i3 > Len(L3)
-             THEN pc' = "v2" /\ i2' = i2 + 1 /\ UNCHANGED <<i3, tot, cnt, seen>>
-             ELSE Body(<<u, L1[i1], L2[i2], L3[i3]>>) /\ i3' = i3 + 1 /\ UNCHANGED <<pc, i2>>
-          /\ UNCHANGED <<A, u, L1, i1, L2, L3>>
+             THEN pc' = "v2" /\ i2' = i2 + 1 /\ UNCHANGED <<i3, tot, cnt, vis>>
+             ELSE Body(<<cu, L1[i1], L2[i2], L3[i3]>>) /\ i3' = i3 + 1 /\ UNCHANGED <<pc, i2>>
+          /\ UNCHANGED <<adjm, cu, L1, i1, L2, L3>>
 Next == NextU \/ NextV1 \/ NextV2 \/ NextV3
 Spec == Init /\ [][Next]_vars
 
 (* ---- invariants ---------------------------------------------------------------- *)
-G0 == A
+G0 == adjm
 NodeSetOf(t) == {t[k] : k \in DOMAIN t}
-SeenSets == {NodeSetOf(seen[k]) : k \in DOMAIN seen}
+SeenSets == {NodeSetOf(vis[k]) : k \in DOMAIN vis}
 (* the library the machine looks into: ids are a bijection between the motif      *)
 (* classes and 1..13 / 1..199 (so "the class of an id" is well defined)            *)
 ClsOfId == Tab([id \in 1..NCls |-> CHOOSE cl \in Classes(K) : IdOfCode(cl) = id])
 LibInv == /\ DOMAIN GenId(K) = ConnCodes(K)
           /\ \A c, d \in ConnCodes(K) : (IdOfCode(c) = IdOfCode(d)) <=> (ClassTab(K)[c] = ClassTab(K)[d])
           /\ {IdOfCode(c) : c \in ConnCodes(K)} = 1..NCls
-(* every visited tuple: K distinct nodes, u the smallest, weakly connected, and no *)
-(* node set is visited twice (the u < v1 < v2 ordering trick)                      *)
+(* every visited tuple: K distinct nodes, cu the smallest, weakly connected, and no *)
+(* node set is visited twice (the cu < v1 < v2 ordering trick)                      *)
 VisitInv ==
-  /\ \A k \in DOMAIN seen :
-        /\ Cardinality(NodeSetOf(seen[k])) = K
-        /\ \A m \in 2..K : seen[k][1] < seen[k][m]
-        /\ NodeSetOf(seen[k]) \in ConnSubs(N, G0, K)
-  /\ Cardinality(SeenSets) = Len(seen)
-(* progress: every connected K-subset whose least node is below u has been visited *)
+  /\ \A k \in DOMAIN vis :
+        /\ Cardinality(NodeSetOf(vis[k])) = K
+        /\ \A m \in 2..K : vis[k][1] < vis[k][m]
+        /\ NodeSetOf(vis[k]) \in ConnSubs(N, G0, K)
+  /\ Cardinality(SeenSets) = Len(vis)
+(* progress: every connected K-subset whose least node is below cu has been visited *)
 ProgressInv ==
-  \A S \in ConnSubs(N, G0, K) : Min(S) < u => S \in SeenSets
+  \A S \in ConnSubs(N, G0, K) : Min(S) < cu => S \in SeenSets
 (* candidate lists ascend (np.where order)                                          *)
 OrderInv == \A L \in {L1, L2, L3} : \A k \in 1..(Len(L) - 1) : L[k] < L[k + 1]
 (* the counters always hold the counts over the tuples visited so far              *)
 PartialInv ==
   LET cls(t) == ClassTab(K)[SubCode(K, G0, NodeSetOf(t))] IN
-  ~Funct => /\ \A id \in 1..NCls : tot[id] = Cardinality({k \in DOMAIN seen : cls(seen[k]) = ClsOfId[id]})
+  ~Funct => /\ \A id \in 1..NCls : tot[id] = Cardinality({k \in DOMAIN vis : cls(vis[k]) = ClsOfId[id]})
             /\ \A id \in 1..NCls : \A v \in 1..N :
-                  cnt[id][v] = Cardinality({k \in DOMAIN seen : cls(seen[k]) = ClsOfId[id] /\ v \in NodeSetOf(seen[k])})
+                  cnt[id][v] = Cardinality({k \in DOMAIN vis : cls(vis[k]) = ClsOfId[id] /\ v \in NodeSetOf(vis[k])})
 (* refinement: the finished machine has visited exactly the connected K-subsets and *)
 (* its counters are the L0 counts                                                   *)
 FinalInv ==
   pc = "done" =>
      LET occ == StructOcc(N, G0, K) IN
      /\ SeenSets = ConnSubs(N, G0, K)
-     /\ Len(seen) = Cardinality(ConnSubs(N, G0, K))
+     /\ Len(vis) = Cardinality(ConnSubs(N, G0, K))
      /\ IF Funct
         THEN LET occs == FunctOccs(N, G0, K) IN
              /\ \A id \in 1..NCls : tot[id] = FunctTotal(K, occs, ClsOfId[id])
@@ -166,7 +166,7 @@ FinalInv ==
              /\ \A id \in 1..NCls : \A v \in 1..N : cnt[id][v] = StructNode(occ, ClsOfId[id], v)
 
 (* ---- L0 lemmas, checked on every input (initial states only) -------------------- *)
-AtStart == pc = "u" /\ u = 1 /\ Lemmas
+AtStart == pc = "cu" /\ cu = 1 /\ Lemmas
 (* sum of the structural counts = number of connected induced K-subgraphs; the       *)
 (* per-node counts of a class add up to K x its total                                 *)
 SumInv ==
